@@ -16,6 +16,9 @@ import (
 	"bytes"
 	"context"
 	"crypto"
+	"crypto/ecdsa"
+	"crypto/elliptic"
+	crand "crypto/rand"
 	"crypto/rsa"
 	"crypto/sha1" //nolint:gosec
 	"crypto/sha256"
@@ -151,6 +154,7 @@ type parseCase struct {
 	Arch    string            `json:"arch"`
 	Keys    []string          `json:"keys"`            // configured key names
 	BadKeys map[string]string `json:"bad_keys,omitempty"` // key name -> non-PEM content
+	KeyForm map[string]string `json:"key_form,omitempty"` // key name -> how the key file is written (see keyFile)
 	Sigs    []sigSpec         `json:"first_member"`
 	First   member            `json:"first_member_shape"` // Pending / Tail / Stored only
 	Rest    []member          `json:"rest"`
@@ -271,7 +275,7 @@ func runParse(w *world, pc *parseCase) (gal.Case, []byte) {
 			keys[k] = []byte(bad)
 			continue
 		}
-		keys[k] = w.key(k).Pub
+		keys[k] = keyFile(w.key(k), pc.KeyForm[k])
 	}
 
 	// truth table of verification over the signed region, with crypto/rsa directly
@@ -393,6 +397,29 @@ func runParse(w *world, pc *parseCase) (gal.Case, []byte) {
 	}
 	pc.Texts = nil
 	return gal.Case{Term: term, Desc: pc, Class: class, Trivial: len(pc.Sigs) == 0 && !pc.NoFirst}, whole
+}
+
+// keyFile: the bytes configured for a key, in the usual form (PKIX "PUBLIC KEY" PEM) or an unusual one
+func keyFile(k *synthrepo.Key, form string) []byte {
+	switch form {
+	case "pkcs1": // "RSA PUBLIC KEY": x509.ParsePKIXPublicKey refuses it
+		return pem.EncodeToMemory(&pem.Block{Type: "RSA PUBLIC KEY", Bytes: x509.MarshalPKCS1PublicKey(&k.Priv.PublicKey)})
+	case "ecdsa": // a PKIX key that is not RSA
+		ek, err := ecdsa.GenerateKey(elliptic.P256(), crand.Reader)
+		if err != nil {
+			panic(err)
+		}
+		der, err := x509.MarshalPKIXPublicKey(&ek.PublicKey)
+		if err != nil {
+			panic(err)
+		}
+		return pem.EncodeToMemory(&pem.Block{Type: "PUBLIC KEY", Bytes: der})
+	case "junk-block-first": // pem.Decode takes the first block only
+		return append(pem.EncodeToMemory(&pem.Block{Type: "PUBLIC KEY", Bytes: []byte("not DER")}), k.Pub...)
+	case "trailing-block": // the genuine key first, anything after it is ignored
+		return append(append([]byte("leading text\n"), k.Pub...), pem.EncodeToMemory(&pem.Block{Type: "PUBLIC KEY", Bytes: []byte("not DER")})...)
+	}
+	return k.Pub
 }
 
 func parsePub(pemBytes []byte) *rsa.PublicKey {
@@ -577,6 +604,12 @@ func corpus(r *gal.Rand) []*parseCase {
 	c.BadKeys = map[string]string{k1: "garbage"}
 	c.Sigs = []sigSpec{valid("RSA256", k1)}
 	add(c)
+	for _, form := range []string{"pkcs1", "ecdsa", "junk-block-first", "trailing-block"} {
+		c = base("configured key file form: " + form)
+		c.KeyForm = map[string]string{k1: form}
+		c.Sigs = []sigSpec{valid("RSA256", k1)}
+		add(c)
+	}
 	c = base("empty signature member")
 	add(c)
 	c = base("rest has two members, both signed")
@@ -668,11 +701,9 @@ func randomCase(r *gal.Rand, i int) *parseCase {
 	case 2:
 		pc.Listed = []string{"https://unrelated.example/x", repo + gal.Pick(r, []string{"", "/", "x"})}
 	}
-	nk := r.Intn(3)
+	nk := 1 + r.Intn(3)
 	if r.Chance(1, 10) {
 		nk = 0
-	} else if nk == 0 {
-		nk = 1
 	}
 	perm := []int{0, 1, 2}
 	for j := 2; j > 0; j-- {
@@ -702,6 +733,9 @@ func randomCase(r *gal.Rand, i int) *parseCase {
 		return pc
 	}
 	ns := 1 + r.Intn(3)
+	if r.Chance(1, 20) {
+		ns = 0 // a first member without entries
+	}
 	for j := 0; j < ns; j++ {
 		alg := gal.Pick(r, []string{"RSA", "RSA256", "RSA256", "RSA", "DSA", "RSA512"})
 		key := gal.Pick(r, keyNames)
@@ -725,14 +759,14 @@ func randomCase(r *gal.Rand, i int) *parseCase {
 		}
 		pc.Sigs = append(pc.Sigs, s)
 	}
-	if r.Chance(1, 5) {
+	if r.Chance(1, 4) {
 		// the size record applies to the FIRST entry of the signed part; stay inside the
 		// modelled envelope (never more blocks than the entry has) — the sweep stage
 		// explores the rest on the real code
 		n := int64(len(pc.Rest[0].Entries[0].Body))
 		m := meta{}
-		switch r.Intn(4) {
-		case 0:
+		switch r.Intn(5) {
+		case 0, 4:
 			m.Rename = sp(gal.Pick(r, []string{".SIGN.x", "APKINDEX", "DESCRIPTION", "other"}))
 			m.Gnu = r.Bool()
 		case 1, 2:
@@ -750,21 +784,184 @@ func randomCase(r *gal.Rand, i int) *parseCase {
 	return pc
 }
 
+// features of a parse case: the shape of the archive, the key set and the options, one
+// "dimension=value" string per dimension (several for the per-entry dimensions). The
+// evidence carries their histogram; every value listed in requiredFeatures occurs among
+// the GENERATED cases of every run, quick tier included (rejection sampling fills gaps).
+func features(pc *parseCase) []string {
+	var fs []string
+	add := func(f string) { fs = append(fs, f) }
+	if pc.NoFirst {
+		add("first=absent")
+	} else {
+		add("first=present")
+		n := len(pc.Sigs)
+		if n > 3 {
+			n = 3
+		}
+		add(fmt.Sprintf("entries=%d", n))
+		for _, sg := range pc.Sigs {
+			m := apk.VerifC04SignatureFileSubmatch(sg.Name)
+			if len(m) == 3 {
+				add("type=" + m[1])
+			} else {
+				add("type=bad-name")
+			}
+			switch {
+			case sg.Extra:
+				add("body=not-a-signature")
+			case sg.Signer == "":
+				add("body=random-bytes")
+			case sg.Over == "other":
+				add("body=signature-over-other-content")
+			case len(m) == 3 && sg.Signer != m[2]:
+				add("body=signature-by-another-key")
+			case len(m) == 3 && ((m[1] == "RSA" || m[1] == "DSA") != (sg.Digest == "SHA1")):
+				add("body=digest-of-the-other-type")
+			default:
+				add("body=valid-signature")
+			}
+		}
+		switch p := pc.First.Pending; {
+		case p != nil && p.Gnu:
+			add("ending=gnu-rename")
+		case p != nil && p.Rename != nil && p.Resize != nil:
+			add("ending=pax-rename+resize")
+		case p != nil && p.Rename != nil:
+			add("ending=pax-rename")
+		case p != nil:
+			add("ending=pax-resize")
+		case pc.First.Tail == 1:
+			add("ending=one-zero-block")
+		case pc.First.Tail == 2:
+			add("ending=end-of-archive")
+		default:
+			add("ending=clean")
+		}
+		if pc.First.Stored {
+			add("deflate=stored")
+		} else {
+			add("deflate=compressed")
+		}
+	}
+	slash := false
+	for _, k := range pc.Keys {
+		if strings.Contains(k, "/") {
+			slash = true
+		}
+	}
+	switch {
+	case slash:
+		add("keys=name-with-slash")
+	case len(pc.Keys) >= 3:
+		add("keys=3")
+	default:
+		add(fmt.Sprintf("keys=%d", len(pc.Keys)))
+	}
+	if len(pc.Rest) > 1 {
+		add("signed-part=several-members")
+	} else if len(pc.Rest) == 1 {
+		first := "D-first"
+		if len(pc.Rest[0].Entries) > 0 && pc.Rest[0].Entries[0].Name == "APKINDEX" {
+			first = "A-first"
+		}
+		add("signed-part=" + first)
+		if pc.Rest[0].Tail == 0 {
+			add("signed-part-end=no-end-of-archive")
+		} else {
+			add("signed-part-end=end-of-archive")
+		}
+	}
+	listedHit := false
+	for _, l := range pc.Listed {
+		if l+"/"+pc.Arch+"/APKINDEX.tar.gz" == pc.URL {
+			listedHit = true
+		}
+	}
+	switch {
+	case pc.Ignore:
+		add("options=ignore-signatures")
+	case listedHit:
+		add("options=index-exempted")
+	case len(pc.Listed) > 0:
+		add("options=other-index-exempted")
+	default:
+		add("options=plain")
+	}
+	if !strings.HasSuffix(pc.URL, "/"+pc.Arch+"/APKINDEX.tar.gz") {
+		add("url=not-an-index-url")
+	}
+	return fs
+}
+
+var requiredFeatures = []string{
+	"first=absent", "first=present", "entries=0", "entries=1", "entries=2", "entries=3",
+	"type=RSA", "type=RSA256", "type=DSA", "type=RSA512", "type=bad-name",
+	"body=valid-signature", "body=not-a-signature", "body=random-bytes", "body=signature-over-other-content",
+	"body=signature-by-another-key", "body=digest-of-the-other-type",
+	"ending=clean", "ending=gnu-rename", "ending=pax-rename", "ending=pax-resize", "ending=pax-rename+resize",
+	"ending=one-zero-block", "ending=end-of-archive", "deflate=stored", "deflate=compressed",
+	"keys=0", "keys=1", "keys=2", "keys=3", "keys=name-with-slash",
+	"signed-part=A-first", "signed-part=D-first", "signed-part-end=no-end-of-archive", "signed-part-end=end-of-archive",
+	"options=plain", "options=ignore-signatures", "options=index-exempted", "options=other-index-exempted", "url=not-an-index-url",
+}
+
 func parseStage(dir string, seed uint64, tier string) error {
 	r := gal.NewRand(seed)
 	w := &world{keys: map[string]*synthrepo.Key{}}
 	wr := &gal.Writer{Dir: dir, Require: "From Apko Require Import Corr.C04.", Type: "parse_case", Check: "check_parse", Shard: 100}
-	for _, pc := range corpus(r) {
+	hist := map[string]int{}    // all cases
+	genHist := map[string]int{} // generated cases only
+	outcome := map[string]map[string]int{}
+	run := func(pc *parseCase, generated bool) {
+		fs := features(pc)
 		c, _ := runParse(w, pc)
 		wr.Add(c)
+		acc := "reject"
+		if strings.HasPrefix(c.Class, "accept") {
+			acc = "accept"
+		}
+		for _, f := range fs {
+			hist[f]++
+			if generated {
+				genHist[f]++
+			}
+			if outcome[f] == nil {
+				outcome[f] = map[string]int{}
+			}
+			outcome[f][acc]++
+		}
+	}
+	for _, pc := range corpus(r) {
+		run(pc, false)
 	}
 	n := 250
 	if tier == "thorough" {
 		n = 2500
 	}
 	for i := 0; i < n; i++ {
-		c, _ := runParse(w, randomCase(r, i))
-		wr.Add(c)
+		run(randomCase(r, i), true)
+	}
+	// every required shape occurs among the generated cases: fill the gaps by rejection sampling
+	var missing []string
+	for _, f := range requiredFeatures {
+		for tries := 0; genHist[f] == 0 && tries < 5000; tries++ {
+			pc := randomCase(r, n+tries)
+			for _, g := range features(pc) {
+				if g == f {
+					pc.Label = fmt.Sprintf("directed (%s) %d", f, tries)
+					run(pc, true)
+					break
+				}
+			}
+		}
+		if genHist[f] == 0 {
+			missing = append(missing, f)
+		}
+	}
+	wr.Extra = map[string]any{"shape_histogram": hist, "shape_histogram_generated_only": genHist, "shape_by_outcome": outcome, "required_shapes_missing": missing}
+	if len(missing) > 0 {
+		return fmt.Errorf("generator cannot produce the shapes %v", missing)
 	}
 	return wr.Flush()
 }
